@@ -283,14 +283,16 @@ Alias2(rev) ==
 
 (* attributes forwarded to the message types of a kind that leave the wire format alone: a casing rule for *fields* that is the  *)
 (* identity on snake_case names, next to the types' own rule for variant names (C01: the names stay those of the methods; C17) *)
+(* ... and handlers that forward a name for the *schema* of their variant (`schemars(rename = ..)`): the wire name is the method's *)
+SchemaNamed(m, n) == m @@ [hattr |-> "schemars(rename = \"" \o n \o "\")"]
 MsgAttrs1 ==
     [id |-> "MA1", family |-> "shared", overrides |-> {},
      parts |-> << [id |-> "i1", mattrs |-> << [kind |-> "query", text |-> "serde(rename_all_fields = \"snake_case\")"] >>,
-                   methods |-> << Sh(NameFoo, "query", "ok"), Sh(NameBar, "exec", "ok"), Sh(<<"a","_","b">>, "sudo", "ok") >>],
+                   methods |-> << Sh(NameFoo, "query", "ok"), SchemaNamed(Sh(NameBar, "exec", "ok"), "Zz"), Sh(<<"a","_","b">>, "sudo", "ok") >>],
                   [id |-> "own", mattrs |-> << [kind |-> "exec", text |-> "serde(rename_all_fields = \"snake_case\")"],
                                               [kind |-> "sudo", text |-> "serde(deny_unknown_fields, rename_all_fields = \"snake_case\")"] >>,
-                   methods |-> << Sh(NameInstantiate, "instantiate", "ok"), Sh(<<"a","_","b">>, "exec", "ok"),
-                                  Sh(<<"x","_","y">>, "query", "ok"), Sh(<<"z","_","1">>, "sudo", "ok") >>] >>]
+                   methods |-> << Sh(NameInstantiate, "instantiate", "ok"), SchemaNamed(Sh(<<"a","_","b">>, "exec", "ok"), "AaBb"),
+                                  Sh(<<"x","_","y">>, "query", "ok"), SchemaNamed(Sh(<<"z","_","1">>, "sudo", "ok"), "foo") >>] >>]
 
 (* the declarations on the contract not grouped by kind: an override and other attributes written between the two interface      *)
 (* declarations (C14: the order of interface and override declarations does not matter); the twin groups them and lists the        *)
